@@ -223,3 +223,57 @@ func (c Cell) Nontrivial() bool {
 	}
 	return false
 }
+
+// CheckNoEncoding looks at the named definitions that say 'no encoding' and have no
+// codec of their own (they are encoded only as part of the types that embed them):
+// each must have a Go struct type (goStructs lists all exported kmsg struct types) and
+// is covered by the grid only if a bound definition refers to it. It returns
+// definition/type mismatches, the names embedded by at least one bound type, and the
+// names no bound type refers to.
+func CheckNoEncoding(sc *Schema, binds []*Binding, goStructs []string) (problems, embedded, unreferenced []string) {
+	have := map[string]bool{}
+	for _, n := range goStructs {
+		have[n] = true
+	}
+	reach := map[*Struct]bool{}
+	var walkS func(s *Struct)
+	var walkT func(t *Type)
+	walkT = func(t *Type) {
+		if t == nil {
+			return
+		}
+		walkT(t.Elem)
+		if t.Struct != nil {
+			walkS(t.Struct)
+		}
+	}
+	walkS = func(s *Struct) {
+		if reach[s] {
+			return
+		}
+		reach[s] = true
+		for _, f := range s.Fields {
+			walkT(f.Type)
+		}
+	}
+	bound := map[*Struct]bool{}
+	for _, b := range binds {
+		bound[b.S] = true
+		walkS(b.S)
+	}
+	for _, n := range sc.Order {
+		s := sc.Structs[n]
+		if !s.NoEncoding || bound[s] {
+			continue
+		}
+		if !have[n] {
+			problems = append(problems, fmt.Sprintf("definition %s (%s, no encoding) has no Go struct type kmsg.%s", n, s.File, n))
+		}
+		if reach[s] {
+			embedded = append(embedded, n)
+		} else {
+			unreferenced = append(unreferenced, n)
+		}
+	}
+	return
+}
